@@ -152,6 +152,21 @@ if __name__ == '__main__':
     a = sys.argv[1:]
     if a and a[0] == 'import':
         sys.exit(0 if do_import(a[1].rstrip('/'), a[2], '--second' in a) else 1)
+    elif a and a[0] == 'import-wave':
+        # tools/seeded.py import-wave <dir with CXX worktrees> <suffix1> <suffix2>
+        base, s1, s2 = a[1].rstrip('/'), a[2], a[3]
+        names = []
+        for pid in sorted(d for d in os.listdir(base) if os.path.isdir(os.path.join(base, d, 'seed_out'))):
+            for sub, suf, second in (('seed_out', s1, False), ('seed_out2', s2, True)):
+                if os.path.exists(os.path.join(base, pid, sub, 'patch.diff')) and os.path.getsize(os.path.join(base, pid, sub, 'patch.diff')):
+                    try:
+                        if do_import(os.path.join(base, pid), '%s-%s' % (pid, suf), second):
+                            names.append('%s-%s' % (pid, suf))
+                    except SystemExit as e:
+                        print(pid, suf, 'IMPORT FAILED', e)
+                    except Exception as e:  # noqa
+                        print(pid, suf, 'IMPORT ERROR', repr(e)[:200])
+        print('confirmed:', ' '.join(names))
     elif a and a[0] == 'run':
         tier = a[a.index('--tier') + 1] if '--tier' in a else 'quick'
         names = [x for x in a[1:] if not x.startswith('--') and x != tier]
